@@ -112,6 +112,15 @@ def _job_wrapper(args):
     except BaseException as e:
         return {'cfg': cfg, 'ok': False, 'err': '%s: %s' % (type(e).__name__, e), 'tb': traceback.format_exc()[-3000:]}
 
+def _orphan_watchdog(parent_pid):
+    """worker initializer: a worker whose parent (the check process) is gone exits instead of burning a core for hours"""
+    import threading
+    def watch():
+        while True:
+            time.sleep(2.0)
+            if os.getppid() != parent_pid: os._exit(9)
+    t = threading.Thread(target=watch, daemon=True); t.start()
+
 def run_jobs(modname, fname, cfgs, workers=None, timeout=None):
     """Run importable function modname.fname(cfg) for every cfg in fresh (spawned) worker
     processes; returns list of result dicts in input order."""
@@ -120,7 +129,7 @@ def run_jobs(modname, fname, cfgs, workers=None, timeout=None):
         return [_job_wrapper((modname, fname, c)) for c in cfgs]
     ctx = multiprocessing.get_context('spawn')
     out = [None] * len(cfgs)
-    with concurrent.futures.ProcessPoolExecutor(max_workers=workers, mp_context=ctx) as ex:
+    with concurrent.futures.ProcessPoolExecutor(max_workers=workers, mp_context=ctx, initializer=_orphan_watchdog, initargs=(os.getpid(),)) as ex:
         futs = {ex.submit(_job_wrapper, (modname, fname, c)): i for i, c in enumerate(cfgs)}
         for fu in concurrent.futures.as_completed(futs, timeout=timeout):
             i = futs[fu]
